@@ -780,6 +780,180 @@ def run_dft_case(ctx, B, desc, oracle_only=False):
     return probs
 
 
+# --------------------------------------------------------------------------
+# the `adjoint` property of the plain DFT operators (round 4)
+
+def adjoint_configs(ctx):
+    rng = ctx.rng
+    cfgs = []
+    for shape in SHAPES_1D + SHAPES_2D + SHAPES_3D + [(1,), (4, 1, 2)]:
+        for axes in axes_subsets(len(shape)):
+            for dt in ('float32', 'float64', 'complex64', 'complex128'):
+                for hc in (False, True):
+                    if hc and dt.startswith('complex'):
+                        continue
+                    for sign in ('-', '+'):
+                        for inv in (False, True):
+                            # sign: the operator's own sign; with halfcomplex the FORWARD sign is '-'
+                            if hc and sign != ('+' if inv else '-'):
+                                continue
+                            for impl in ('numpy', 'pyfftw'):
+                                cfgs.append((shape, axes, dt, hc, sign, inv, impl))
+    rng.shuffle(cfgs)
+    if ctx.quick:
+        keep = {}
+        for c in cfgs:
+            shape, axes, dt, hc, sign, inv, impl = c
+            k = (min(len(axes), 2), exact_ok(shape, axes), hc, sign, inv, dt[0], shape[axes[-1]] % 2)
+            if len(keep.setdefault(k, [])) < 2:
+                keep[k].append(c)
+        cfgs = [c for v in keep.values() for c in v]
+    else:
+        cfgs = cfgs[:1500]
+    return cfgs
+
+
+def adj_key(d, what):
+    last = d['shape'][d['axes'][-1]]
+    return 'dft adjoint {} of={} halfcomplex={} real={} sign={} dtype={} ndim={} axes={} last-axis-{}'.format(
+        what, 'inverse-operator' if d['inv'] else 'forward-operator', d['hc'],
+        not d['dtype'].startswith('complex'), d['sign'], d['dtype'], len(d['shape']), tuple(d['axes']),
+        'odd' if last % 2 else 'even')
+
+
+def run_adjoint_case(ctx, B, desc, oracle_only=False):
+    """`op.adjoint` of DiscreteFourierTransform / DiscreteFourierTransformInverse.
+    ORACLE (real code only): the adjoint is documented as 'equal to the inverse': it is exposed for
+    exponent 2, agrees with `op.inverse` on a random range element and recovers x from op(x).
+    CORRESPONDENCE: values against the model `dftAdjointNd`; the factor of
+    `C18.dft_true_adjoint` (plain dot products: <op x, y> = N^(+-1) <x, op.adjoint y>)."""
+    import random
+    odl = _odl()
+    from odl.trafos import DiscreteFourierTransform as DFT, DiscreteFourierTransformInverse as IDFT
+    shape, axes, dt = tuple(desc['shape']), tuple(desc['axes']), desc['dtype']
+    hc, sign, inv, impl = desc['hc'], desc['sign'], desc['inv'], desc['impl']
+    r = random.Random(desc['xseed'])
+    realdom = not dt.startswith('complex')
+    exact = exact_ok(shape, axes)
+    sp = odl.uniform_discr([0] * len(shape), [1] * len(shape), shape, dtype=dt)
+    ctx.case(('dftadj', len(shape), tuple(shape[a] % 2 for a in axes), axes, hc, sign, inv, dt, impl))
+    ctx.hit('adjoint/{}/{}'.format('inverse-op' if inv else 'forward-op', 'hc' if hc else 'full'))
+    fshape = list(shape)
+    if hc:
+        fshape[axes[-1]] = shape[axes[-1]] // 2 + 1
+    cdt = np.result_type(dt, np.complex64)
+
+    def mk(given):
+        kw = {}
+        if given:
+            fsp = odl.uniform_discr([0] * len(shape), [1] * len(shape), fshape, dtype=cdt)
+            kw = {'domain': fsp} if inv else {'range': fsp}
+        return (IDFT if inv else DFT)(sp, axes=axes, sign=sign, halfcomplex=hc, impl=impl, **kw)
+    op, e = safe(lambda: mk(False))
+    one = 1 in fshape
+    ctx.hit('dftctor/default-range/' + ('one-point-axis' if one else 'ok'))
+    if not oracle_only:
+        got = 'ok' if e is None else exc_kind(e)
+        B.add('dftrangector fshape={} given=0'.format(nl(fshape)),
+              lambda ans, got=got: (ans == got) or ctx.disagree(desc, 'default range: ' + got, ans[:100]))
+    if e is not None:
+        if one:
+            viol(ctx, 'dft constructor default-range one-point-axis ndim={}'.format(len(shape)),
+                 'shape {}: {!r}'.format(shape, e)[:300], desc)
+            ctx.hit('dftctor/given-range')
+            op, e = safe(lambda: mk(True))
+            if not oracle_only:
+                got = 'ok' if e is None else exc_kind(e)
+                B.add('dftrangector fshape={} given=1'.format(nl(fshape)),
+                      lambda ans, got=got: (ans == got) or ctx.disagree(desc, 'given range: ' + got, ans[:100]))
+        if e is not None:
+            viol(ctx, adj_key(desc, 'constructor'), repr(e)[:300], desc)
+            return
+    A, e = safe(lambda: op.adjoint)
+    if e is not None:
+        viol(ctx, adj_key(desc, 'not-exposed'), 'exponent 2 on both sides but .adjoint raised {!r}'.format(e)[:300],
+             desc)
+        return
+    # x in the real-space side, y in the frequency side
+    x = rand_array(r, shape, dt)
+    y = rand_array(r, tuple(fshape), cdt)
+    if hc or (inv and realdom):
+        # a frequency-side element that IS the spectrum of real data (the real-range inverse keeps
+        # only the real part, so only such elements can be recovered)
+        fsign = sign if not inv else ('-' if sign == '+' else '+')
+        y = np_reference_dft(rand_array(r, shape, dt).astype('float64'), axes, fsign, hc).astype(cdt)
+    u, v = (y, x) if inv else (x, y)          # op: u-side -> v-side ; adjoint: v-side -> u-side
+    probs = []
+    res, e = safe(lambda: (op(op.domain.element(u.copy())).asarray(),
+                           A(A.domain.element(v.copy())).asarray(),
+                           op.inverse(op.range.element(v.copy())).asarray()))
+    if e is not None:
+        viol(ctx, adj_key(desc, 'call'), 'op / op.adjoint / op.inverse raised {!r}'.format(e)[:300], desc)
+        return
+    opu, Av, Iv = res
+    tolv = tol_for(dt, max(1.0, float(np.max(np.abs(Iv))) if Iv.size else 1.0))
+    if Av.shape != Iv.shape or not np.max(np.abs(Av - Iv)) <= tolv:
+        probs.append(('equals-inverse', "documented 'adjoint equal to the inverse': op.adjoint(v) != "
+                      'op.inverse(v), max dev {}'.format(
+                          float(np.max(np.abs(Av - Iv))) if Av.shape == Iv.shape else Av.shape)))
+    back, e = safe(lambda: A(A.domain.element(opu.copy())).asarray())
+    if e is not None or back.shape != u.shape or not np.max(np.abs(back - u)) <= tol_for(
+            dt, max(1.0, float(np.max(np.abs(u))))):
+        probs.append(('recovers-input', 'op.adjoint(op(u)) != u: {!r}'.format(
+            e if e is not None else float(np.max(np.abs(back - u))) if back.shape == u.shape else back.shape)))
+    for pr in probs:
+        viol(ctx, adj_key(desc, pr[0]), pr[1][:400], desc)
+    if oracle_only:
+        return
+    # ---- correspondence
+    mimpl = 'np' if A.impl == 'numpy' else 'fftw'
+    line = 'dftadj num={} impl={} inv={} plus={} hc={} real={} exp2=1 rshape={} axes={} x={}'.format(
+        'x' if exact else 'f', mimpl, int(inv), int(sign == '+'), int(hc), int(realdom), nl(shape), nl(axes),
+        cl(v))
+    B.add(line, lambda ans, Av=Av: compare_arr(ctx, desc, Av, ans, dt, exact, 'adjoint'))
+    if not hc:
+        # the factor of C18.dft_true_adjoint / dft_inverse_true_adjoint (one axis; here: every
+        # transformed axis contributes its length)
+        ctx.hit('adjoint/scaled-identity')
+        N = float(np.prod([shape[a] for a in axes]))
+        lhs = np.vdot(v.astype('complex128'), opu.astype('complex128'))        # <op u, v>
+        rhs = np.vdot(Av.astype('complex128'), u.astype('complex128'))         # <u, A v>
+        fac = (1.0 / N) if inv else N
+        if realdom:
+            lhs, rhs = lhs.real, rhs.real
+        if not abs(lhs - fac * rhs) <= tol_for(dt, max(1.0, abs(lhs), abs(fac * rhs)) * 4):
+            ctx.disagree(desc, '<op u, v> = {} , <u, op.adjoint v> = {}'.format(lhs, rhs),
+                         'theorem C18.dft_true_adjoint: ratio {}'.format(fac))
+
+
+def run_adjoint(ctx, B, cfgs=None, oracle_only=False):
+    odl = _odl()
+    from odl.trafos import DiscreteFourierTransform as DFT, DiscreteFourierTransformInverse as IDFT
+    rng = ctx.rng
+    for shape, axes, dt, hc, sign, inv, impl in (cfgs if cfgs is not None else adjoint_configs(ctx)):
+        desc = {'kind': 'dftadj', 'shape': list(shape), 'axes': list(axes), 'dtype': dt, 'hc': hc,
+                'sign': sign, 'inv': inv, 'impl': impl, 'xseed': rng.getrandbits(32)}
+        run_adjoint_case(ctx, B, desc, oracle_only)
+    # exponents other than 2: no adjoint (NotImplementedError), both operator classes
+    for expo in (1.5, 1.0, 3.0):
+        for inv in (False, True):
+            for dt in ('complex128', 'float64'):
+                desc = {'kind': 'dftadj-exponent', 'exponent': expo, 'inv': inv, 'dtype': dt}
+                ctx.case(('dftadj-exp', expo, inv, dt))
+                ctx.hit('adjoint/exponent-not-2')
+                sp = odl.uniform_discr([0], [1], (4,), dtype=dt, exponent=expo)
+                res, e = safe(lambda: (IDFT if inv else DFT)(sp).adjoint)
+                got = exc_kind(e) if e is not None else 'ok'
+                if got != 'err:NotImplementedError':
+                    viol(ctx, 'dft adjoint exponent={} of={}'.format(expo, 'inverse' if inv else 'forward'),
+                         'documented NotImplementedError for exponents != 2, got {}'.format(
+                             got if e is not None else type(res).__name__), desc)
+                if not oracle_only:
+                    B.add('dftadj num=x impl=np inv={} plus=0 hc=0 real={} exp2=0 rshape=4 axes=0 x=1,2,3,4'.format(
+                        int(inv), int(dt == 'float64')),
+                        lambda ans, got=got, desc=desc: (ans == got) or ctx.disagree(desc, got, ans[:100]))
+
+
 def run_dft_complex_hc(ctx, B=None):
     """halfcomplex=True on a complex space is documented to have no effect."""
     odl = _odl()
@@ -1998,7 +2172,9 @@ EXPECTED_BRANCHES = [
     'recip/odd/shift/hc', 'recip/even/noshift/hc', 'recip/odd/noshift/hc', 'recip/even/shift/hc',
     'pre/shift', 'pre/noshift', 'dft/numpy/hc/minus', 'dft/pyfftw/hc/minus', 'dft/numpy/full/plus',
     'dft/pyfftw/full/plus', 'wavelet/adjoint/default', 'wavelet/adjoint/weighting',
-    'wavelet/adjoint/bdry', 'ctor/rejects', 'ctor/accepts', 'padmode/err', 'padmode/ok']
+    'wavelet/adjoint/bdry', 'adjoint/forward-op/full', 'adjoint/forward-op/hc', 'adjoint/inverse-op/full',
+    'adjoint/inverse-op/hc', 'adjoint/scaled-identity', 'adjoint/exponent-not-2', 'dftctor/default-range/one-point-axis',
+    'dftctor/default-range/ok', 'dftctor/given-range', 'ctor/rejects', 'ctor/accepts', 'padmode/err', 'padmode/ok']
 
 _STATE = {'extraction_broken': False}
 
@@ -2030,6 +2206,7 @@ def run(ctx):
     B.flush()
     run_dft(ctx, B)
     run_dft_complex_hc(ctx, B)
+    run_adjoint(ctx, B)
     B.flush()
     run_ft(ctx, B)
     B.flush()
@@ -2071,6 +2248,7 @@ def search(ctx, broken):
         run_factors_nd(ctx, B)
         B.lines, B.cbs = [], []
         run_dft(ctx, B, oracle_only=True)
+        run_adjoint(ctx, B, oracle_only=True)
         run_ft(ctx, B, oracle_only=True)
         run_backend_agreement(ctx)
         run_padmode(ctx, B)
@@ -2092,6 +2270,10 @@ def replay(ctx, case):
         run_dft_case(ctx, B, case, oracle_only=True)
     elif kind == 'ft':
         run_ft_case(ctx, B, case, oracle_only=True)
+    elif kind == 'dftadj':
+        run_adjoint_case(ctx, B, case, oracle_only=True)
+    elif kind == 'dftadj-exponent':
+        run_adjoint(ctx, B, cfgs=[], oracle_only=True)
     elif kind == 'wavelet':
         run_wavelet_case(ctx, B, case, oracle_only=True)
     elif kind == 'dft_complex_hc':
